@@ -17,7 +17,7 @@ meta = {
     'needs_to_manifest': needs,
     'confirmed': {
         'demo_clean_exit': 0, 'demo_patched_exit': 'non-zero', 'baseline_tests_with_patch': '87 passed',
-        'how': f'tools/eval_seed.sh {prop} {name}: demo run in a scratch worktree with and without the '
+        'how': f'tools/eval_seed.sh {name}: demo run in a fresh scratch worktree without and with the '
                'patch, pinned test suite with the patch, then `git -C /repo apply`, all 17 quick '
                'checks, `git -C /repo checkout -- .`'},
     'detected_by': caught,
